@@ -783,6 +783,12 @@ func scenC13(run *vlab.Run, sx, tmp string) {
 		}
 		kind := []string{"tcp", "udp", "tcp"}[i%3]
 		nl := 3 + rng.Intn(12)
+		manyBad := i%6 == 4
+		if manyBad {
+			// a long list with hundreds of defective entries (a column mix-up in the export): one record each,
+			// however many there are and however fast they come
+			nl = 150 + rng.Intn(300)
+		}
 		var sb strings.Builder
 		type want struct {
 			addr uint32
@@ -792,8 +798,11 @@ func scenC13(run *vlab.Run, sx, tmp string) {
 		nBad, stopped := 0, false
 		var causes []string
 		for k := 0; k < nl; k++ {
-			if rng.Intn(3) == 0 {
+			if rng.Intn(3) == 0 || manyBad && rng.Intn(10) != 0 {
 				b := bads[rng.Intn(len(bads))]
+				if manyBad {
+					b = bads[rng.Intn(6)] // the kinds after which processing goes on
+				}
 				if b.cause == "invalid port" && false {
 					continue
 				}
@@ -893,6 +902,9 @@ func scenC13(run *vlab.Run, sx, tmp string) {
 			run.Count("bad_line_files_ok", 1)
 		}
 		run.Count("c13_wire_runs", 1)
+		if manyBad {
+			run.Count("wire_files_with_more_than_100_bad_entries", 1)
+		}
 		run.Count("wire_bad_entries", int64(nBad))
 		run.Count("wire_error_records", int64(len(errLines)))
 		run.Distinct(file)
